@@ -249,6 +249,12 @@ func float1(r *rand.Rand, cls string) float64 {
 	case "tie":
 		// small grid: exact ties and exact binary arithmetic
 		return float64(r.Intn(9)) / 4
+	case "neg":
+		// negative branch lengths are legal Newick (neighbour-joining trees have them); -1 itself is excluded by Float
+		if r.Intn(3) == 0 {
+			return -float64(1+r.Intn(7)) / 8 // -0.125 .. -0.875: exact, never the sentinel
+		}
+		return float64(r.Intn(17)) / 8
 	case "any":
 		return math.Float64frombits(r.Uint64())
 	case "edge":
